@@ -108,8 +108,26 @@ def _run_sampler(sampler, case, pbn, points_fn, spectrum):
     obs = dr.build_obs(case['layout'], spectrum, dr.error_bars(case['errors'], n))
     p = dr.build_model(case['tp'])
     path = fx.fresh_dir('c06_' + sampler)
-    opt = dr.make_optimizer(sampler, obs, p.model, path)
-    dr.configure(opt, p.model, case['fitted'], case['priors'])
+    first = case.get('first_layout')
+    if first is None:
+        opt = dr.make_optimizer(sampler, obs, p.model, path)
+        dr.configure(opt, p.model, case['fitted'], case['priors'])
+    else:
+        # the optimiser first serves another observation (one complete likelihood evaluation), which is then
+        # replaced through set_observed: nothing of the first observation may survive
+        n0 = len(dr.LAYOUTS[first]['wl'])
+        obs0 = dr.build_obs(first, _obs_spectrum(dict(case, layout=first), n0), dr.error_bars('constant', n0))
+        opt = dr.make_optimizer(sampler, obs0, p.model, path)
+        dr.configure(opt, p.model, case['fitted'], case['priors'])
+        plan0 = ds.Plan()
+        with _silent(), ds.active(plan0):
+            opt.compile_params()
+            pri0 = [pbn[n_] for n_ in [c[0] for c in opt.fitting_parameters]]
+            plan0.points = [[0.5] * len(pri0)]
+            dummy0 = [[pr.sample(0.5) for pr in pri0], [pr.sample(0.25) for pr in pri0]]
+            plan0.modes = ds.Plan(modes=[(dummy0, [0.5, 0.5])]).modes
+            opt.compute_fit()
+        opt.set_observed(obs)
     plan = ds.Plan()
     with _silent(), ds.active(plan):
         opt.compile_params()
@@ -286,6 +304,27 @@ def sequence_case(case):
     return r
 
 
+def swap_case(case):
+    """likelihood after the observation of a live optimiser was replaced (set_observed)"""
+    r = core.R(case)
+    dr.install_opacities()
+    cfg = SEQ[case['tp']]
+    full = {'tp': case['tp'], 'fitted': cfg['fitted'], 'priors': cfg['priors'], 'layout': case['layout'],
+            'first_layout': case['first_layout'], 'errors': 'distinct', 'obsval': 'offset'}
+    pbn = _pri_by_name(full)
+    n = len(dr.LAYOUTS[full['layout']]['wl'])
+    spectrum = _obs_spectrum(full, n)
+    valid = [l for l in cfg['letters'] if l.startswith('valid')][:2] or list(cfg['letters'])[:2]
+    plan, order, obs = _run_sampler(
+        case['sampler'], full, pbn,
+        lambda order: [[cfg['letters'][l][nm] for nm in order] for l in valid], spectrum)
+    r.check(len(plan.calls) == len(valid), 'all-points-evaluated', 'double/points')
+    oracle = Oracle(full, obs)
+    _judge(r, full, case['sampler'], plan, order, pbn, oracle, tag='after-set_observed')
+    r.nontrivial = True
+    return r
+
+
 # ----------------------------------------------------------------------------------------------
 # exploration
 # ----------------------------------------------------------------------------------------------
@@ -374,3 +413,7 @@ def explore(ctx):
     ctx.bounds['sequence_length'] = depth
     ctx.bounds['sequences'] = len(seqs)
     ctx.run_cases('sequence_case', seqs, phase='sequence', chunk=8)
+    swaps = [{'tp': 'iso', 'sampler': smp, 'first_layout': a, 'layout': b}
+             for smp in ('nestle', 'multinest', 'polychord') for a in dr.LAYOUTS for b in dr.LAYOUTS if a != b]
+    ctx.bounds.update(observation_swaps=len(swaps))
+    ctx.run_cases('swap_case', swaps, phase='swap', chunk=4)
